@@ -162,7 +162,7 @@ def preload_readonly(ctx):
                'preloading can write storage: %s' % ' -> '.join(short(x) for x in prog.path_to(parent, hit[0])), key='RF-EFFECT|preload|%s' % fn)
 
 
-def cfg_twins(ctx):
+def cfg_twins(ctx, pfx='C14', need_both=True):
     T = 'akd_core::ecvrf::traits::VRFKeyStorage::get_node_labels'
     shapes = {}
     for cfg, prog in sorted(ctx.progs.items()):
@@ -193,13 +193,21 @@ def cfg_twins(ctx):
             # the result is paired with (label, freshness, version, value) of that same element
             pushes = [arg(m, 1) for bb in bodies for ev in bb.events() for m in ev['calls'] if isinstance(m, tuple) and m[0] == 'call' and call_is(m, 'Vec::push')]
             okp = any(p[0] == 'tuple' and len(p[1]) == 2 and p[1][0][0] == 'tuple' and len(p[1][0][1]) == 4 for p in pushes)
-            ok = okk and okt and okp
+            # the public key handed to the evaluation is derived, in this very call, from the storage's own private key
+            # (a value cached across calls or storages — seeded change C18-r2-b used a process-wide OnceLock — makes the
+            # batch path's labels differ from what get_node_label / get_label_proof produce under the real key)
+            pkdefs = [short(t.get('res') or t.get('fn')) or '' for pos, t in b.call_sites()
+                      if len(t.get('dest', [])) == 1 and t['dest'][0] in b.local_named('pk')]
+            okpk = bool(pkdefs) and all(d.endswith('::from') and 'VRFPublicKey' in d for d in pkdefs)
+            ok = okk and okt and okp and okpk
             detail = 'node label = get_node_label_with_expanded_key(key, pk, label, freshness, version) of each element, pushed as ((label, freshness, version, value), node_label)' \
-                if ok else 'key=%s element-components=%s paired=%s' % (okk, comp, okp)
+                if ok else 'key=%s element-components=%s paired=%s pk-derived-from-own-key=%s %s' % (okk, comp, okp, okpk, pkdefs)
             shapes[cfg] = (par, show(strip_mut(c))[:60])
-        ctx.ob('C14.SIB.get_node_labels[%s:%s]' % (cfg, 'parallel' if par else 'sequential'), 'RF-SIB', ok, b.path, '%s:%s' % (b.file, b.line),
+        ctx.ob('%s.SIB.get_node_labels[%s:%s]' % (pfx, cfg, 'parallel' if par else 'sequential'), 'RF-SIB', ok, b.path, '%s:%s' % (b.file, b.line),
                detail, key='RF-SIB|get_node_labels|%s' % ('parallel' if par else 'sequential'))
     kinds = {v[0] for v in shapes.values()}
+    if not need_both:
+        return
     ctx.ob('C14.SIB.get_node_labels.both', 'FLOOR', kinds == {True, False}, T, None,
            'both cfg bodies analysed (parallel_vrf on and off)' if kinds == {True, False} else 'only %s body of get_node_labels was compiled' % kinds,
            key='FLOOR|get_node_labels.both')
